@@ -241,7 +241,7 @@ def castDesc (code : String) : Option TyDesc :=
 
 def castCase (p : Profile) (t : List String) : String :=
   match t with
-  | [_, code, sz] =>
+  | _ :: code :: sz :: _ =>
     match castDesc code with
     | none => s!"unknown-type:{code}"
     | some d =>
@@ -253,7 +253,7 @@ def castCase (p : Profile) (t : List String) : String :=
 /-- C15 on the observation: a successful cast is at the same address and spans the tag's size rounded up to 8 -/
 def specCast (t : List String) : String :=
   match t with
-  | [_, _, sz] => let size := sz.toNat!; if size < 8 then "panic" else s!"panic||ok off=0 sov={roundUp8 size} *"
+  | _ :: _ :: sz :: _ => let size := sz.toNat!; if size < 8 then "panic" else s!"panic||ok off=0 sov={roundUp8 size} *"
   | _ => "*"
 
 
